@@ -21,11 +21,12 @@ from typing import Any
 from .. import leanio, pyextract, rfc
 from ..core import Ctx, ExtractError, load_corpus
 from . import sim_c06 as pool
+from . import threads_c06 as threads
 
 ID = "C06"
 LEVEL = "proof"
 STRENGTH = "partial"   # never_early only under `Guard` (open F5b); liveness under `LGuard` (no 422 injected without a write) as no-lost-wake-up + reachability, and for cycles that run to their end (open F10)
-ENGINES = ["lean-model", "pyextract", "purediff", "kopfsim"]
+ENGINES = ["lean-model", "pyextract", "purediff", "kopfsim", "real-threads"]
 TIE = ("T (conditions and effects of the finalizer block of process_resource_causes incl. what the early exit of the consistency gate "
        "returns as delays + the carry filter of process_resource_event and the cycle's patch starting with what was carried: "
        "AST → Lean, re-proved equal to the model, and `decision` = their composition) + D (real finalizers.block_deletion/"
@@ -33,7 +34,10 @@ TIE = ("T (conditions and effects of the finalizer block of process_resource_cau
        "requires_finalizer on registries built with kopf's decorators vs. the loop model `requiresLoop`) + S (every cycle of whole-operator simulations: queued fns, delays "
        "flag, JSON-patch outcome, carried fns, sleep-then-touch) + A (trace acceptance: one label per real step of the object's life — "
        "foreign write / mark / finalizer edit / cycle start on ITS event body / merge response / JSON-patch outcome / touch / restart — "
-       "replayed through `lstep`: every label enabled, abstract state equal after each)")
+       "replayed through `lstep`: every label enabled, abstract state equal after each) + R (REAL threads on a real loop, harness/props/threads_c06.py: "
+       "the real invocation.invoke of a gated sync function under label lists cancel/wake/return/raise vs. the LTS `istep` — task done / "
+       "function returned after each label and how the task ended; the real process_resource_event with a sync @kopf.daemon/@kopf.timer "
+       "against the in-memory API server: every stop_daemons call vs. `stopDelay`)")
 LEVEL_TEXT = ("Lean theorems for ALL finalizer lists / fn sequences / decision inputs / label lists of the LTS (deletion requests, label "
               "edits, foreign finalizer edits and other writes, cycles on stale event bodies, handler & daemon completions, "
               "re-scheduling of purged deletion handlers, genuine or injected 422, restarts, foreign writes between any two requests "
@@ -58,8 +62,13 @@ LEVEL_TEXT = ("Lean theorems for ALL finalizer lists / fn sequences / decision i
               "cycle labels chosen quiet (consistent, no other delay, no re-scheduling) and all queued events already marked. "
               "A cycle that dies in its patching (API error past the request retries, swallowed by throttled()) has no label in the "
               "LTS: the lost wake-up after it is open finding F10, seen by the liveness oracle only. "
-              "'Abandoned after its timeouts' is an environment label here (C09 owns stop_daemons' stages). The LTS is "
-              "trace-validated (tie A).")
+              "'Abandoned after its timeouts' is an environment label in the object's LTS (C09 owns stop_daemons' stages). The LTS is "
+              "trace-validated (tie A). SYNC daemons/handlers (real threads; the simulator runs them inline): FULL theorems over an LTS of "
+              "invoke's sync branch for every list of cancel/return/raise/wake labels — sync_task_done_implies_returned (the task is not "
+              "done before the function has returned, however often it is cancelled), sync_cancellation_not_lost, "
+              "sync_task_finishes_after_return, stop_no_delay_spec (stop_daemons reports no delay iff the task is done or backoff+timeout "
+              "are over) and their composition release_waits_for_sync_daemon; the variant that leaves the thread behind: "
+              "detached_thread_witness, detached_release_witness (seed C06f). Tied by real-thread runs (tie R).")
 THEOREMS = [("Kopf.Props.C06", "Kopf.C06." + n) for n in [
     "foreign_untouched", "order_preserved", "block_spec", "allow_spec", "block_idempotent", "allow_idempotent",
     "allow_after_block", "patch_is_fn_of_tested", "foreign_untouched_lts", "decision_spec",
@@ -69,7 +78,9 @@ THEOREMS = [("Kopf.Props.C06", "Kopf.C06." + n) for n in [
     "released_in_one_quiet_cycle", "wakeup_layer_refines", "no_lost_wakeup", "release_reachable_when_quiet", "injected_422_loses_wakeup",
     "carried_fn_keeps_wakeup", "carried_fn_lost_wakeup_before_repair", "inconsistent_noop_patch_keeps_wakeup", "noop_fn_keeps_wakeup",
     "add_on_match", "remove_on_mismatch", "add_remove_on_match",
-    "requires_iff", "requires_order_irrelevant", "requires_every_registration", "dedup_before_match_loses_requirement_witness"]]
+    "requires_iff", "requires_order_irrelevant", "requires_every_registration", "dedup_before_match_loses_requirement_witness",
+    "sync_task_done_implies_returned", "sync_cancellation_not_lost", "sync_task_finishes_after_return", "stop_no_delay_spec",
+    "release_waits_for_sync_daemon", "detached_thread_witness", "detached_release_witness"]]
 TIE_THEOREMS = [("Kopf.Tie.C06", "Kopf.C06.Tie." + n) for n in [
     "mustBlock_eq", "add_eq", "remove_eq", "early_eq", "release_eq", "wait_eq", "effects_eq", "decision_eq", "carry_eq", "changed_eq"]]
 RULE = ("D: finalizer lists over an alphabet with the own name 0-3 times, look-alikes, unicode, empty/absent containers, bodies with "
@@ -86,8 +97,16 @@ RULE = ("D: finalizer lists over an alphabet with the own name 0-3 times, look-a
         "write right before the operator's n-th PATCH), injected 422, API outages (5xx), delayed watch events with the stream cut "
         "(and compacted) at some moment = lost echoes; one case = one processing cycle (decision incl. the delays "
         "flag, JSON-patch outcome, carried fns, sleep-then-touch) resp. one whole trace (acceptance); distinct & non-trivial = "
-        "distinct abstracted tuples in which a fn was queued, carried or a requirement was in force")
-TRUSTED = ["harness/props/sim_c06.py (stacked registrations, handler-supplied patch fns, foreign-finalizer ops for a configured finalizer name, "
+        "distinct abstracted tuples in which a fn was queued, carried or a requirement was in force; R: label lists of 1-10 labels "
+        "(0-8 cancellations, the function returning/raising at any position or not at all, loop turns in between or not) for the real "
+        "invoke; objects with a SYNC daemon (cancellation_backoff none/1/8/1/4 s x cancellation_timeout none/0/1/8/60/600/3600 s; function "
+        "busy = blind to the stop flag until let go, or obeying it) or a SYNC timer, default or configured finalizer name, foreign "
+        "finalizers, deletion requested while the function runs, further events / pauses beyond the short timeouts, the function "
+        "returning or raising at some moment or only in the end; non-trivial = a cancellation resp. a stop request while the function runs")
+TRUSTED = ["harness/props/threads_c06.py (real loop + ThreadPoolExecutor; gates = threading.Event; `return` blocks the loop thread until the "
+           "executor future's done-callbacks have run; the minimal worker feeding process_resource_event one cycle per stored version; "
+           "'function running' is read on the loop thread at the instant of the write)",
+           "harness/props/sim_c06.py (stacked registrations, handler-supplied patch fns, foreign-finalizer ops for a configured finalizer name, "
            "the `linger` daemon) on top of harness/sim (virtual-time loop, fake API server incl. JSON-patch `test` → 422 and deletion by last-finalizer removal, "
            "scripted handlers/daemons, attribute-level observation of kopf)",
            "pyextract atom vocabulary for the finalizer block of processing.process_resource_causes",
@@ -156,6 +175,8 @@ SIG_F10 = {"site": "throttlers.throttled+queueing.worker",
 SIG_N6 = {"site": "process_resource_causes",
           "shape": "never released: the cycle still awaits the version of its own last write, its non-empty patch brings no event: it leaves "
                    "before the handlers and the release without a delay, no event follows"}
+SIG_THREAD = {"site": "invocation.invoke+daemons.stop_daemons",
+              "shape": "own finalizer removed while the function of a matching sync daemon/timer is running in its thread and the daemon is not abandoned"}
 SIG_EARLY = {"site": "processing.process_resource_causes", "shape": "own finalizer removed while a finalizer is required"}
 
 
@@ -1613,7 +1634,174 @@ def check_liveness(ctx: Ctx, view: View, sc: dict, tr: dict) -> None:
 
 # ---- running --------------------------------------------------------------------------------------
 def _corpus() -> list[tuple[str, dict]]:
-    return [(n, d["scenario"] if "scenario" in d else d) for n, d in load_corpus(ID)]
+    return [(n, d["scenario"] if "scenario" in d else d) for n, d in load_corpus(ID) if "threads" not in d]
+
+
+# =============================================================================================
+# (R) real threads: the sync branch of `invoke` and the release of the finalizer, on a real loop
+# =============================================================================================
+def gen_invoke(rng: Any) -> dict:
+    """Label lists for the real `invoke`: cancellations at any moments and any number of them, the function returning
+    or raising at any moment (or not at all within the list), the loop running in between or not."""
+    n = rng.choice([1, 2, 3, 4, 4, 5, 6, 8])
+    labels = [rng.choice(["cancel", "cancel", "wake"]) for _ in range(n)]
+    if rng.random() < 0.8:
+        labels.insert(rng.randrange(len(labels) + 1), rng.choice(["return", "return", "raise"]))
+    if rng.random() < 0.7:
+        labels.append("wake")
+    return {"kind": "invoke", "labels": labels}
+
+
+THREAD_BACKOFFS = [None, None, None, 0.125, 0.25]
+THREAD_TIMEOUTS = [None, 0, 0.125, 60, 60, 600, 3600]
+
+
+def gen_e2e(rng: Any) -> dict:
+    """An object served by a SYNC daemon/timer whose function is (mostly) busy in its thread when the deletion is
+    requested; events before/after, pauses that let a short backoff/timeout pass, the function returning or raising at
+    some moment or only in the end."""
+    handler = rng.choice(["daemon", "daemon", "daemon", "daemon", "timer"])
+    case: dict[str, Any] = {"kind": "e2e", "handler": handler, "mode": rng.choice(["busy", "busy", "busy", "obey"])}
+    if handler == "daemon":
+        case["backoff"] = rng.choice(THREAD_BACKOFFS)
+        case["timeout"] = rng.choice(THREAD_TIMEOUTS)
+    else:
+        case["interval"] = rng.choice([0.015625, 0.03125, 0.25])
+    if rng.random() < 0.3:
+        case["finalizer"] = rng.choice(CUSTOM_OWNS)
+    if rng.random() < 0.5:
+        case["foreign"] = rng.choice([["other.io/a"], ["x", "other.io/b"], [DEFAULT_OWN + "2"]])
+    steps: list[Any] = ["poke"] * rng.choice([0, 0, 1]) + ["delete"]
+    for _ in range(rng.choice([0, 1, 2, 3])):
+        steps.append(rng.choice(["poke", "poke", ["idle", 0.125], ["idle", 0.3125]]))
+    if rng.random() < 0.5:
+        steps += [rng.choice(["release", "release", "release-raise"]), "poke"]
+    case["steps"] = steps
+    return case
+
+
+def _abandoned(case: dict, since_mark: float | None) -> bool:
+    """The property's "abandoned after its timeouts": a cancellation timeout is declared and backoff + timeout have passed
+    since the deletion was requested (kopf counts from its first stop request, which is not earlier)."""
+    t = case.get("timeout")
+    if case.get("handler") != "daemon" or t is None or since_mark is None:
+        return False
+    return since_mark >= float(t) + float(case.get("backoff") or 0)
+
+
+def oracle_threads(ctx: Ctx, case: dict, res: dict) -> None:
+    """From the property text alone: the finalizer is still there while a function of a matching daemon/timer of the object
+    is running and its cancellation timeouts are not over."""
+    for rm in res.get("removals", []):
+        if rm.get("foreign"):
+            continue
+        if not rm["fn_running"]:
+            ctx.count("R.removal", "after the function returned")
+        elif _abandoned(case, rm.get("since_mark")):
+            ctx.count("R.removal", "function still running, daemon abandoned after its timeouts")
+        else:
+            ctx.count("R.removal", "EARLY: function running, not abandoned")
+            ctx.oracle_fail("the operator removed its finalizer while the function of a matching sync daemon/timer is still running in its "
+                            "thread and the daemon is not abandoned (no cancellation timeout is over)",
+                            {"threads": case, "removal": rm, "stops": res.get("stops", [])[-4:], "history": res.get("history")}, SIG_THREAD)
+    # foreign finalizers: never added, dropped or reordered (the only writer of finalizers here is the operator)
+    foreign = [f for f in (case.get("foreign") or [])]
+    own = case.get("finalizer") or DEFAULT_OWN
+    for h in res.get("history") or []:
+        if [f for f in h["fins"] if f != own] != foreign:
+            ctx.oracle_fail("foreign finalizers changed by the operator", {"threads": case, "history": res.get("history")},
+                            {"site": "finalizers", "shape": "foreign finalizers changed"})
+            break
+
+
+def _us(x: float) -> int:
+    return int(float(x) * 1_000_000)
+
+
+def run_threads(ctx: Ctx, n_invoke: int, n_e2e: int, corpus_only: bool = False) -> None:
+    cases: list[dict] = [d["threads"] for _n, d in load_corpus(ID) if "threads" in d]
+    n_corpus = len(cases)
+    if not corpus_only:
+        seen = {json.dumps(c, sort_keys=True) for c in cases}
+        for gen, n in ((gen_invoke, n_invoke), (gen_e2e, n_e2e)):
+            for _ in range(n):
+                c = gen(ctx.rng)
+                k = json.dumps(c, sort_keys=True)
+                if k not in seen:
+                    seen.add(k)
+                    cases.append(c)
+    results = threads.run_many(cases, wall=150.0, jobs=8)
+    reqs, impls, where = [], [], []
+    for idx, (case, res) in enumerate(zip(cases, results)):
+        if "harness_error" in res:
+            raise RuntimeError(f"real-thread run failed: {res['harness_error']}\n{res.get('tb', '')[-1500:]}\n{json.dumps(case)}")
+        ctx.traces += 1
+        if res.get("ceiling"):
+            ctx.count("R.inconclusive (a ceiling was hit)", str(res["ceiling"])[:60])
+            continue
+        if case["kind"] == "invoke":
+            labels = case["labels"]
+            ctx.count("R.invoke.cancels", sum(1 for l in labels if l == "cancel"))
+            ctx.count("R.invoke.function", next((l for l in labels if l in ("return", "raise")), "still running"))
+            ctx.count("R.invoke.fin", str(res.get("fin")))
+            ctx.case(key={"invoke": labels}, nontrivial="cancel" in labels, sample=None)
+            # the ordering law itself, read off the real run
+            if any(o["done"] and not o["returned"] for o in res["obs"]):
+                ctx.count("R.invoke.law", "BROKEN: task done before the function returned")
+            reqs.append(["C06.invoke", True, labels])
+            impls.append([{"done": o["done"], "returned": o["returned"], "fin": None} for o in res["obs"][:-1]]
+                         + [{"done": res["obs"][-1]["done"], "returned": res["obs"][-1]["returned"], "fin": res.get("fin")}])
+            where.append({"threads": case, "what": "invoke", "observed": res["obs"], "fin": res.get("fin")})
+            continue
+        ops = [s if isinstance(s, str) else s[0] for s in case["steps"]]
+        stops = res.get("stops", [])
+        busy_at_stop = any(st["fn_running"] for st in stops)
+        ctx.count("R.e2e.handler", f"{case['handler']}/{case['mode']}")
+        ctx.count("R.e2e.timeouts", f"backoff={case.get('backoff')} timeout={case.get('timeout')}" if case["handler"] == "daemon" else "timer")
+        ctx.count("R.e2e.function_busy_when_asked_to_stop", busy_at_stop)
+        ctx.count("R.e2e.released_in_the_end", bool(res.get("released_in_the_end")))
+        if res.get("errors"):
+            ctx.count("R.e2e.cycle_errors", res["errors"][0][:80])
+        ctx.case(key={"e2e": [case["handler"], case["mode"], case.get("backoff"), case.get("timeout"), ops, bool(case.get("foreign")),
+                              bool(case.get("finalizer"))]},
+                 nontrivial=busy_at_stop, sample={"threads": case, "removals": res.get("removals")} if idx < n_corpus + 2 else None)
+        oracle_threads(ctx, case, res)
+        for st in stops:
+            b, t = st.get("backoff"), st.get("timeout")
+            args = [None if b is None else _us(b), None if t is None else _us(t)]
+            reqs.append(["C06.stop", bool(st["done_after"]), *args, _us(st["age0"]), 1])
+            impls.append({"delays": st["delays"] > 0, "age": "age0"})
+            where.append({"threads": case, "what": "stop_daemons", "stop": st})
+            reqs.append(["C06.stop", bool(st["done_after"]), *args, _us(st["age1"]), 1])
+            impls.append({"delays": st["delays"] > 0, "age": "age1"})
+            where.append({"threads": case, "what": "stop_daemons", "stop": st})
+    try:
+        outs = ctx.driver.ask(reqs) if reqs else []
+    except leanio.LeanError as e:
+        raise RuntimeError(f"Lean driver failed (toolchain/harness problem, not a verdict): {e}\n{e.log[-1500:]}")
+    k = 0
+    while k < len(reqs):
+        req, impl, out, wh = reqs[k], impls[k], outs[k], where[k]
+        if not out or out[0] != "ok":
+            ctx.tie_fail("driver rejected a real-thread step", {"request": req, "answer": out, **wh})
+            k += 1
+            continue
+        if req[0] == "C06.invoke":
+            model = [{"done": m["done"], "returned": m["returned"], "fin": None} for m in out[1][:-1]] + [out[1][-1]]
+            ctx.compare("C06 sync branch of invoke (task done / function returned after each label, and how the task ended)", impl, model, wh)
+            k += 1
+        else:
+            # the model at the age read before and after the call: kopf's own reading lies in between
+            out2 = outs[k + 1]
+            if out2 and out2[0] == "ok" and out[1] == out2[1]:
+                ctx.count("R.stop_daemons", ("delay" if out[1] else "no delay") + (", task done" if req[1] else ", task not done"))
+                ctx.compare("C06 stop_daemons: is a delay reported for the daemon", impl["delays"], out[1], wh)
+            else:
+                ctx.count("R.stop_daemons", "at a stage boundary (not compared)")
+            k += 2
+    ctx.count("R.cases", "corpus", n_corpus)
+    ctx.count("R.cases", "generated", len(cases) - n_corpus)
+
 
 
 def run_scenarios(ctx: Ctx, scenarios: list[dict], names: list[str | None]) -> None:
@@ -1731,6 +1919,7 @@ def run_scenarios(ctx: Ctx, scenarios: list[dict], names: list[str | None]) -> N
 
 
 def run(ctx: Ctx) -> None:
+    run_threads(ctx, ctx.budget(24, 400), ctx.budget(24, 240))
     run_lists(ctx)
     run_registry(ctx)
     n = ctx.budget(200, 10000)
@@ -1759,6 +1948,9 @@ def search(ctx: Ctx, broken: list) -> None:
     def found() -> bool:
         return any(f.kind == "oracle" and f.signature not in known for f in ctx.failures[start:])
 
+    run_threads(ctx, ctx.budget(100, 600), ctx.budget(100, 400))
+    if found():
+        return
     run_lists(ctx)
     run_registry(ctx)
     if found():
@@ -1798,6 +1990,12 @@ def search(ctx: Ctx, broken: list) -> None:
 
 def replay(ctx: Ctx, data: dict) -> None:
     rep = data.get("replay", data)
+    if "threads" in rep:
+        case = rep["threads"]
+        res = threads.run_many([case], wall=150.0, jobs=1)[0]
+        if case.get("kind") == "e2e" and "harness_error" not in res and not res.get("ceiling"):
+            oracle_threads(ctx, case, res)
+        return
     if "scenario" in rep or "input" in rep:
         sc = rep.get("scenario") or rep.get("input", {}).get("scenario")
         res = pool.run_many([sc], wall=40.0)[0]
